@@ -139,6 +139,69 @@ CHECKS["C13"] = dict(
           "(hourly rounding), D18 (api_call_response not loadable), D19."),
     design="§7 C13")
 
+CHECKS["C05"] = dict(
+    technique="Lean 4 theorems on Model D's slot store (reset∘set = id, toggle words) + K-engine toggle correspondence + deep-snapshot oracle",
+    text=("Proved in Lean, for every store and every list of pairs occupying pairwise distinct slots: switching the "
+          "simulated values on and back off restores exactly the same object in every slot and the slot of every object; "
+          "hence a successful simulation (which ends with reset_values) and any word of set/reset toggles followed by a "
+          "reset return to the baseline. After every toggle the real objects sitting in the simulation's slots are compared "
+          "with the model (K-engine). The statement for raising simulations is false of the code (D5: no rollback) and is "
+          "a proved counterexample + known finding; graph identity in systems with a shared job is finding D2."),
+    design="§7 C05")
+CHECKS["C06"] = dict(
+    technique="Lean 4 causality theorems on the series primitives and rule cores + simulation-vs-real-update oracle",
+    text=("Proved in Lean: the cut at the simulation date keeps nothing before the date and is the identity when the date "
+          "is the first hour (so a first-hour simulation runs the same rules on the same inputs as the real update); every "
+          "series primitive and rule core used downstream (add, scale, shift by non-negative hours, cumulative sum, "
+          "occurrence folding, average occurrences) maps series without hours before the date to such series; twins are "
+          "paired position by position; the date check rejects naive and outside dates. The oracle compares first-hour "
+          "simulations with really applying the changes to a copy, checks earliest simulated hours, twin links and "
+          "rejections. Findings D20 (TypeError), D21 (time-zone change), D22 (link change), D2 facet."),
+    design="§7 C06")
+CHECKS["C07"] = dict(
+    technique="Lean 4 theorems on explanation-tree recording (Model A Expl) + re-evaluation of every node of every real explanation tree",
+    text=("Proved in Lean: every recording operator (+ − × ÷ sum abs) yields a tree whose root — and, inductively, every "
+          "intermediate step — reproduces its value when the recorded operator is re-evaluated on the recorded operands; "
+          "labelling keeps this; leaves of well-recorded trees are labelled; the renderer is total. The tie to the code is "
+          "the K-expl oracle: every node of every explanation tree of every calculated attribute of every class (≈65 000 "
+          "arithmetic re-evaluations per quick run) and K-qty for the operator values. In-place mutators after recording "
+          "and 'leaf has a source' are covered by the oracle only."),
+    design="§7 C07")
+CHECKS["C08"] = dict(
+    technique="Lean 4 theorems on the verified chain checker (update order) + executable graph invariant evaluated by Lean on exported real graphs (K-graph) + perturbation oracle",
+    text=("Proved in Lean for every graph: a chain accepted by chainOk lists each dependent exactly once, after everything it "
+          "depends on, and contains every transitive dependent of the edited inputs. graphInv (both ends, live values only, "
+          "acyclic) is evaluated by Lean on the graph exported from the real code after builds, histories, simulations and "
+          "toggles, and must agree with the direct check. Completeness (true reads ⊆ recorded ancestors) is tested by "
+          "perturbation only. Findings D2, D6, D13 are known."),
+    design="§7 C08")
+CHECKS["C15"] = dict(
+    technique="Lean 4 recovery theorem in the abstract recomputation theory + failing-edit / injected-crash-point oracle",
+    text=("Proved in Lean for any rule system: whatever prefix of the chain was recomputed before the failure (any crash "
+          "point, any number of failed attempts on the same inputs), re-assigning the previous input values and running the "
+          "chain restores exactly the pre-edit state (revert_restores_values, no_unrecoverable_state). The oracle fails "
+          "edits at every raising rule and at injected positions, reverts, edits again and compares with fresh builds. The "
+          "graph part ('edits after that behave as on a fresh system') is false of the code: finding D10."),
+    design="§7 C15")
+CHECKS["C16"] = dict(
+    technique="Lean 4 theorems on Model D's list operations and reverse look-ups + K-links correspondence with ListLinkedToModelingObj",
+    text=("Proved in Lean: an operation a Python list refuses is refused with the same exception and changes nothing; an "
+          "operation that changes the content leaves exactly Python's content in an attached list; assignment installs the "
+          "list; reverse look-ups are derived from forward links and a referenced object has a non-empty one. The model's "
+          "step (content, attachment, exception) is compared with the real class for every generated operation (K-links). "
+          "The full statement 'including ones that change nothing' is false of the code: no-op mutators detach the live list, "
+          "remove() raises after applying (D11, proved as counterexamples of the model)."),
+    design="§7 C16")
+CHECKS["C17"] = dict(
+    technique="Lean 4 theorems on the builders' derivation rules (Model B Builders) + K-builders correspondence + builder-vs-plain oracle",
+    text=("Proved in Lean, in physical units and for all inputs: video bitrate = pixels × bits per pixel × frame rate, data = "
+          "bitrate × duration, CPU = cost × bitrate; generative-AI token weights, data, latency, GPU need and base RAM "
+          "formulas; a builder input drives the derived parameters proportionally. In Model B a builder job is a plain job "
+          "with the derived parameters by construction. The derivations are compared with the real builders (K-builders) and "
+          "the oracle compares builder systems with hand-built plain systems, alone or mixed with plain jobs, for all "
+          "resolutions and (thorough) all technologies, models and instance types. Findings D23, D24."),
+    design="§7 C17")
+
 NOT_YET = {}
 
 
